@@ -11,6 +11,7 @@ mod c03;
 mod c04;
 mod c05;
 mod c07;
+mod c08;
 mod c09;
 mod c10;
 mod c11;
@@ -21,6 +22,7 @@ mod c14;
 mod c15;
 mod c16;
 mod c17;
+mod c19;
 mod c20;
 mod stk;
 
@@ -48,6 +50,7 @@ fn scenarios(prop: &str, tier: &str) -> Vec<Scenario> {
         "C04" => c04::scenarios(tier),
         "C05" => c05::scenarios(tier),
         "C07" => c07::scenarios(tier),
+        "C08" => c08::scenarios(tier),
         "C09" => c09::scenarios(tier),
         "C10" => c10::scenarios(tier),
         "C11" => c11::scenarios(tier),
@@ -57,6 +60,7 @@ fn scenarios(prop: &str, tier: &str) -> Vec<Scenario> {
         "C15" => c15::scenarios(tier),
         "C16" => c16::scenarios(tier),
         "C17" => c17::scenarios(tier),
+        "C19" => c19::scenarios(tier),
         "C20" => c20::scenarios(tier),
         _ => vec![],
     }
